@@ -192,6 +192,9 @@ EXTRA = {
     "C05": _GAMMA + _ACC + "centers_hz (the inner vertices in order / the centres the constructor laid out), supports_hz (pair k = vertices k and k+2), num_filts, "
                   "sampling_rate, scaled_l2_norm, erb, order of all four banks.",
     "C07": _ACC + "is_real, is_analytic, is_zero_phase, supports, supports_hz of all four banks and the base class's supports_ms." + _GAMMA,
+    "C06": " ComplexGammatoneFilterBank.get_frequency_response is under contract for the documented length (with and without half) and the shape "
+           "safety of its vectorised accumulation (bin grid of exactly dft_size entries, one _H value per grid point, arrays of equal length added); "
+           "its values stay bounded.",
     "C08": " Nested components: for every constructor that accepts one (the three computers' bank and window, the three banks' scaling function) an "
            "AST-level data-flow obligation set shows that exactly the caller's argument goes to alias_factory_subclass_from_arg with the documented "
            "family, that the result replaces the argument before any other use and is never rebound, and that the optional window defaults to "
